@@ -544,7 +544,11 @@ CRASH_SCRIPTS = {
     # a timed acquire that has to wait for another holder; while it sleeps between two polls the application forks a
     # long-lived child; later it gets the lock and is killed
     'waiter_forks_between_polls': {'how': 'acquire', 'mode': 'timed', 'timeout': 30.0, 'reentrant': False, 'nest': 1, 'rounds': 1,
-                                   'ctor_timeout': -1, 'hold_steps': 2, 'fork_in_sleep': True, 'pre_holder': True},
+                                   'ctor_timeout': -1, 'hold_steps': 2, 'fork_in_sleep': True, 'pre_holder': True,
+                                   # Not part of the registered check (see DESIGN.md 10.2): relatives created by fork() while
+                                   # the library waits are outside C13's quantified space, and the pinned tree is itself
+                                   # exposed to them in its blocking mode (the descriptor is open while flock() blocks).
+                                   'outside_quantifier': True},
 }
 FRESH = {'how': 'acquire', 'mode': 'default', 'reentrant': False, 'nest': 1, 'rounds': 1, 'ctor_timeout': -1, 'hold_steps': 1}
 # the probe that must get the lock after the crash alternates between the blocking and the polling (timed) path
